@@ -34,7 +34,7 @@ for p in PROPS:
                 "design_ref": f"DESIGN.md section 4, {p}",
             },
             "level_note": t.get("note", "Trusted: CPython's ast parser and the rule definitions. Decides the listed structural clauses only; the behaviour as a whole is undecided."),
-            "technique": t.get("technique", "static analysis: repository-specific AST/CFG rules (" + ", ".join(r[0] for r in rules) + ")"),
+            "technique": t.get("technique", "static analysis: repository-specific AST/CFG rules") + " [rules: " + ", ".join(sorted((r[0] for r in rules), key=lambda x: int(x.split("R")[1]))) + "]",
         }
     )
 
@@ -53,7 +53,7 @@ manifest = {
             "name": "ovldlint",
             "path": "/verif/ovldlint",
             "serves_properties": [c["property_id"] for c in checks],
-            "kind_free_text": "repository-specific static checker (stdlib ast): source model, statement CFG with dominance/must-reach queries, effect summaries, emission-skeleton reader for the code generators, finite-domain interpreter for Order-valued code, meta-AST reader for the rewriter",
+            "kind_free_text": "repository-specific static checker (stdlib ast only): source model with role-based anchors, statement CFG with dominance / must-reach queries, effect summaries, resolved call graph, template evaluator, and two interpreters over the package's source - a finite-domain one for Order-valued code and an abstract one (metainterp) that executes the code generators, the AST rewriter, the signature analyser and the table's resolution on symbolic inputs and then interprets what they generate; nothing of /repo is imported or run",
         }
     ],
     "checks": checks,
